@@ -82,6 +82,13 @@ def plan(tier, seed):
     for n in range(3, n2 + 1):
         for pi, _ in enumerate(E2.parent_vectors(n)):
             tasks.append(("two-ring-bonds-with-orders", ("tworings", n, pi)))
+    from mc.props import c06
+    scopes.append({"name": "aromatic-under-tight-tables", "skeletons": c06.AROM, "substituents": ["", "C", "F", "=O", "O"],
+                   "tables": list(c06.ARO_TABLES),
+                   "desc": "aromatic forms at and above the capacities of the table in force: whatever strict=True accepts after "
+                           "kekulization must decode under that table and re-encode to itself"})
+    for k in range(len(c06.AROM)):
+        tasks.append(("aromatic-under-tight-tables", ("arom", k)))
     scopes.append({"name": "atom-grid", "isotopes": ISO, "elements": ELEM, "chirality": CHIR, "H": HS, "charges": CHG,
                    "contexts": ["X", "CX", "X=C", "C(X)C", "C1XC1", "CC.X", "X.X"],
                    "tables": [RELAXED, "default", "octet_rule", TIGHT]})
@@ -106,7 +113,7 @@ def plan(tier, seed):
     for k in range(0, len(spans), 16):
         tasks.append(("index-spans", ("spans", spans[k:k + 16])))
     return {"scopes": scopes, "tasks": tasks, "bounds": {"topology": [nt, rt], "lenient_n": nl, "ba_n": nb},
-            "weight": lambda t: (t[1][1][-1] if t[1][0] == "spans" else (t[1][1] if t[1][0] not in ("grid", "elements", "digits") else 5))}
+            "weight": lambda t: (t[1][1][-1] if t[1][0] == "spans" else (t[1][1] if t[1][0] not in ("grid", "elements", "digits", "arom") else 5))}
 
 
 _SF = None
@@ -209,6 +216,12 @@ def run(task):
                 for bts in itertools.product(["", "=", "/", "\\"], repeat=n - 1):
                     smi = E2.write(n, par, rings, at, [""] + list(bts), ring_tok={rings[0]: rs})
                     last = (smi, check(smi, RELAXED, r))
+    elif kind == "arom":
+        from mc.props import c06
+        for smi in sorted(c06.aromatic_variants(c06.AROM[arg[1]])):
+            r.states += 1
+            for tn, t in c06.ARO_TABLES.items():
+                last = (smi, check(smi, t, r))
     elif kind == "tworings":
         _, n, pi = arg
         par = list(E2.parent_vectors(n))[pi]
